@@ -206,20 +206,35 @@ def CbArg.truthy : CbArg → Bool
 def wrapCallbacks (a : CbArg) : List Nat :=
   if a.truthy then a.elems else []
 
+/-- The negative-phase index draw of `_shuffle_data` (neural_state.py:458-477), as far as it can fail:
+with bases `torch.randint(len(z_samples), …)`, without bases `torch.randint(N, …)` unless the two batch
+sizes agree (then the positive permutation is re-used and nothing is drawn). `torch.randint(0, size)`
+raises `RuntimeError` for every size, also the empty one (`Batching.randintReq`; same branch structure as
+`Batching.shuffleData`). `nZ` = number of rows of the data whose basis is all `Z` (`z_samples.shape[0]`). -/
+def shuffleDraw (N nZ posB : Nat) (negB : Option Nat) (hasBases : Bool) : Except PyErr Unit :=
+  if hasBases then Batching.randintReq nZ
+  else if Batching.effNegB negB posB = posB then .ok ()
+  else Batching.randintReq N
+
 /-- Number of items the zipped `data_iterator` of one epoch yields, from the sizes only
 (neural_state.py:568 `neg_batch_size` default, :597 `num_batches`, :458-498 `_shuffle_data`):
 `⌈N/pos⌉` positive (and bases) slices; the negative samples have `N` rows when there are no bases and
 the two sizes agree (same permutation), otherwise `num_batches * neg` rows (`torch.randint`), sliced by
-`neg`; `zip` stops at the shortest. `ZeroDivisionError` for `pos_batch_size = 0`. -/
-def batchesPerEpoch (N posB : Nat) (negB : Option Nat) (hasBases : Bool) : Except PyErr Nat :=
+`neg`; `zip` stops at the shortest. `ZeroDivisionError` for `pos_batch_size = 0`; `RuntimeError` when the
+negative indices are to be drawn from an empty set (`shuffleDraw`: no reference-basis row although bases
+are given; no row at all and `neg_batch_size ≠ pos_batch_size`) — never defaulted. -/
+def batchesPerEpoch (N nZ posB : Nat) (negB : Option Nat) (hasBases : Bool) : Except PyErr Nat :=
   match Batching.numBatches N posB with
   | .error e => .error e
   | .ok nb =>
-    let neg := Batching.effNegB negB posB
-    let posCount := (Batching.batchStarts N posB).length
-    let negRows := if !hasBases && neg == posB then N else nb * neg
-    let negCount := (Batching.batchStarts negRows neg).length
-    .ok (if hasBases then min posCount (min negCount posCount) else min posCount negCount)
+    match shuffleDraw N nZ posB negB hasBases with
+    | .error e => .error e
+    | .ok () =>
+      let neg := Batching.effNegB negB posB
+      let posCount := (Batching.batchStarts N posB).length
+      let negRows := if !hasBases && neg == posB then N else nb * neg
+      let negCount := (Batching.batchStarts negRows neg).length
+      .ok (if hasBases then min posCount (min negCount posCount) else min posCount negCount)
 
 /-- The arguments of one `fit` call that shape the control flow, as the caller passes them. -/
 structure Args where
@@ -235,6 +250,9 @@ structure Args where
   negB : Option Nat
   /-- `input_bases is not None` -/
   hasBases : Bool
+  /-- number of rows of `data` measured in the reference basis (every entry of the row of `input_bases` is
+  `"Z"`): `z_samples.shape[0]` (neural_state.py:589-592, data.py:115-133); read only when `hasBases` -/
+  nZ : Nat
   /-- `callbacks=` -/
   callbacks : CbArg
   /-- `time=` -/
@@ -248,14 +266,29 @@ def Args.cfg (a : Args) (nb : Nat) : Cfg :=
     timer := a.time, hasSched := a.hasSched }
 
 /-- `fit(data, epochs, pos_batch_size, neg_batch_size, …, callbacks=…)` from the caller's arguments.
-The early return (neural_state.py:558) precedes every other evaluation. (For `pos_batch_size = 0` the
-real code raises after `on_train_start` has been dispatched; that partial log is not modelled.) -/
+The early return (neural_state.py:558) precedes every other evaluation. `num_batches = ceil(N / pos_batch_size)`
+(:597, `ZeroDivisionError` for 0) is evaluated once before the epoch loop; `_shuffle_data` (which raises
+`RuntimeError` when it has to draw negative indices from an empty set, `shuffleDraw`) only inside the loop
+body, hence never when `range(starting_epoch, epochs + 1)` is empty. An exception propagates out of `fit`:
+the value is `.error`; what the callbacks have seen by then is `fitArgsAbortLog`. -/
 def fitArgs (a : Args) (R : Req) (stop₀ : Bool) : Except PyErr (List Entry × S) :=
   if stop₀ then .ok (fit (a.cfg 0) R true)
   else
-    match batchesPerEpoch a.N a.posB a.negB a.hasBases with
+    match Batching.numBatches a.N a.posB with
     | .error e => .error e
-    | .ok nb => .ok (fit (a.cfg nb) R false)
+    | .ok nb₀ =>
+      if a.epochs < a.start then .ok (fit (a.cfg nb₀) R false)
+      else
+        match batchesPerEpoch a.N a.nZ a.posB a.negB a.hasBases with
+        | .error e => .error e
+        | .ok nb => .ok (fit (a.cfg nb) R false)
+
+/-- What has happened when `fitArgs a R false` is an `.error` (both exceptions are raised after
+`callbacks.on_train_start(self)` (neural_state.py:595) and before the first `on_epoch_start`: `ceil(N / 0)` at :597,
+the first `_shuffle_data` at :601): `on_train_start` has been dispatched to every callback (and the `Timer`),
+nothing else — in particular NO `on_train_end`. -/
+def fitArgsAbortLog (a : Args) (R : Req) : List Entry :=
+  (dispatch (a.cfg 0) R .trainStart { stop := false, notified := false, ver := 0, sched := 0 }).1
 
 /-- One call of a session: what the caller does to the flag before it (`pre = some v`:
 `nn_state.stop_training = v`; `none`: nothing), the arguments, the behaviour of the callbacks. -/
